@@ -820,6 +820,27 @@ func checkStep3(c *Ctx, rule, pkg, label string) {
 				c.OK(rule, key, c.Pos(cl.Pos()), "behind Progress() >= 100 (after Plot) and the wouldMining "+ifs(to == "k:3", "request", "negation"))
 			}
 		})
+		// step 3 is the cleanup of step 1: once the space was moved to plotting, every way out of the
+		// plotter step passes a transition out of plotting
+		{
+			key := label + ":spacePlotter:always-leaves-plotting"
+			isOut := func(in ssa.Instruction) bool {
+				cl, ok := in.(*ssa.Call)
+				return ok && len(cl.Call.Args) >= 2 && stateRef(cl.Call.Args[len(cl.Call.Args)-2]) == "k:1"
+			}
+			r := reach(f, plot, nil, isOut)
+			stuck := false
+			for _, ret := range returnsOf(f) {
+				if r(ret) {
+					stuck = true
+				}
+			}
+			if stuck {
+				c.Bad(rule, key, c.Pos(plot.Pos()), "after ws.Plot() the plotter can return without moving the space out of `plotting` (e.g. an early return on a plot error): the space stays plotting for ever — it can be neither removed nor plotted again, and requests for it dereference a popped item that no longer exists")
+			} else {
+				c.OK(rule, key, c.Pos(plot.Pos()), "every path from ws.Plot() to the end of the step passes a transition out of plotting")
+			}
+		}
 		if n < 2 {
 			c.Bad(rule, label+":spacePlotter:step3-anchor", c.Pos(f.Pos()), fmt.Sprintf("reason=anchor-missing: expected the plotting->ready and plotting->mining steps after ws.Plot(), found %d", n))
 		}
